@@ -105,6 +105,10 @@ def op_line(op):
         return "da %s" % cps(op[1])
     if k == "st":
         return "st %d %d %s" % (op[1], op[2], " ".join(item_line(i) for i in op[3]))
+    if k == "stt":
+        # style.cssText = text; the model tokenizes, splits with the declaration-block skeleton and looks every
+        # run up in the table (run text -> item | X)
+        return "stt %d %s %s" % (op[1], cps(op[2]), " ".join("%s=%s" % (cps(key), v) for key, v in op[3]))
     raise ValueError(op)
 
 
@@ -166,6 +170,10 @@ def _apply(style, op):
         elif k == "st":
             log.raiseExceptions = bool(op[1])
             style.cssText = render_items(op[3], bool(op[2]))
+            ret = None
+        elif k == "stt":
+            log.raiseExceptions = bool(op[1])
+            style.cssText = op[2]
             ret = None
         else:
             raise ValueError(op)
@@ -300,9 +308,6 @@ class Ref:
         return e[3] if e else ""
 
 
-WS_FAMILY = "set/get through a name spelling with surrounding whitespace"
-
-
 NONCANONICAL = (" color ", "\\43olor", "color/**/")
 
 
@@ -370,6 +375,13 @@ def _oracle_step(style, ref, op, outcome, cssnames):
     elif k == "st":
         if not (op[2] and op[1]):
             ref.l = [Ref.entry(i) for i in op[3]]
+    elif k == "stt":
+        # op[4] = the items the text was composed of (by construction), op[5] = it contains junk
+        if not (op[5] and op[1]):
+            ref.l = [Ref.entry(tuple(i)) for i in op[4]]
+        if bool(op[5] and op[1]) != bad:
+            return "cssText assignment %s although the text %s a malformed declaration (raiseExceptions on)" % (
+                "raised" if bad else "did not raise", "contains" if op[5] else "does not contain")
     # ---- compare
     got = _state(style)
     want = [tuple(e[:4]) + ("important" if e[4] else "",) if e[0] == "P" else tuple(e) for e in ref.l]
@@ -488,9 +500,6 @@ def run_history(h):
                 if d == "SKIP":
                     oracle_on = False      # literal-name mode: outside the statement; reference no longer tracks
                 elif d:
-                    opname = op[2] if op[0] in ("set", "setp", "si") else op[1] if op[0] in ("rm", "di") else ""
-                    if not _canonical(opname) and not d.startswith(WS_FAMILY):
-                        d = WS_FAMILY + ": " + d
                     fail = (idx, d)
                 else:
                     checked += 1
@@ -524,6 +533,38 @@ def core_ops():
     ops.append(("st", 1, 0, (("D", "color", "red", 0), ("C", 1), ("D", "c\\olor", "blue", 1), ("D", "top", "1px", 0))))
     ops.append(("set", 1, " color ", "green", "", 1, 1))
     return ops
+
+
+# fragments of declaration-block text: (text, item it yields | "X" = ident-started junk | None = junk taken by `unexpected`)
+FRAGMENTS = [
+    ("color: red", ("D", "color", "red", 0)), ("COLOR: blue !important", ("D", "COLOR", "blue", 1)),
+    ("c\\olor: 1px", ("D", "c\\olor", "1px", 0)), ("top:green", ("D", "top", "green", 0)),
+    ("left : inherit", ("D", "left", "inherit", 0)), ("o\\\\x: red !important", ("D", "o\\\\x", "red", 1)),
+    ("t\\op: 1px", ("D", "t\\op", "1px", 0)), ("font-style: inherit", ("D", "font-style", "inherit", 0)),
+    ("/*c1*/", ("C", 1)), ("/*c2*/", ("C", 2)), ("@u3;", ("U", 3)), ("@u4;", ("U", 4)),
+    ("junk junk", "X"), ("color red", "X"), ("color:", "X"), ("top: $", "X"),
+    ("(y):2", None), ("3 ! y:2", None), ("[a;b]:1", None), ("{z;w} x", None), (":x", None), ("f(a;b): 1", None),
+    ("!important", None), ("", None),
+]
+
+
+def rand_text_op(rng, raising=None):
+    frs = [rng.choice(FRAGMENTS if rng.random() < 0.5 else FRAGMENTS[:12]) for _ in range(rng.randint(0, 6))]
+    text, tbl, items, junk = "", {}, [], False
+    for ft, exp in frs:
+        text += rng.choice(["", " ", "\n  "]) + ft
+        if isinstance(exp, tuple):
+            items.append(exp)
+            tbl[ft] = item_line(exp)
+            if exp[0] == "D":
+                text += rng.choice([";", " ;", "; "])
+        else:
+            junk = junk or ft != ""
+            if exp == "X":
+                tbl[ft] = "X"
+            text += rng.choice([";", "; "])
+    raising = int(rng.random() < 0.5) if raising is None else raising
+    return ("stt", raising, text, sorted(tbl.items()), items, int(junk))
 
 
 def rand_item(rng):
@@ -565,7 +606,9 @@ def rand_op(rng, literal=True, weird=False):
         return ("sa", raising, rng.choice(["color", "top", "left", "fontStyle", "overflowX", "fooBar", "overflowx"]), v)
     if k < 0.89:
         return ("da", rng.choice(["color", "top", "fontStyle", "overflowX", "fooBar"]))
-    return ("st", raising, int(rng.random() < 0.25), tuple(rand_item(rng) for _ in range(rng.randint(0, 5))))
+    if k < 0.95:
+        return ("st", raising, int(rng.random() < 0.25), tuple(rand_item(rng) for _ in range(rng.randint(0, 5))))
+    return rand_text_op(rng)
 
 
 def gen_histories(ctx, thorough):
@@ -585,6 +628,11 @@ def gen_histories(ctx, thorough):
         weird = rng.random() < 0.15
         ops = [rand_op(rng, literal, weird) for _ in range(rng.randint(1, 40 if i % 4 == 0 else 12))]
         hs.append({"ro": int(rng.random() < 0.04), "probes": PROBES, "init": init, "ops": ops})
+    # cssText assignments of composed texts (junk, nested brackets, comments, at-rules) mixed with the other ops
+    for i in range(6000 if thorough else 1500):
+        ops = [rand_text_op(rng) if rng.random() < 0.6 else rand_op(rng, rng.random() < 0.3, False)
+               for _ in range(rng.randint(1, 8))]
+        hs.append({"ro": 0, "probes": PROBES[:9], "init": [rand_item(rng) for _ in range(rng.randint(0, 3))], "ops": ops})
     return hs, n_exh
 
 
@@ -658,7 +706,7 @@ def _fails(h):
 
 def run(ctx):
     thorough = ctx.tier == "thorough"
-    ctx.regen("tokenizer", "cssproperties")
+    ctx.regen("tokenizer", "upto", "cssproperties")
     ctx.coq_build("props/C11.v")
     binary = ctx.ocaml_build("styledecl")
     n_dig = check_digests(ctx)
@@ -733,7 +781,9 @@ def run(ctx):
                 "%d-op core alphabet (%d, exhaustive part) + random sequences of <= 40 operations over the full "
                 "alphabet (14 name spellings incl. escapes, escaped backslash, whitespace, unparsable; valid / invalid "
                 "/ empty / None values; 6 priority spellings; normalize and replace on/off; Property arguments; item, "
-                "attribute and cssText assignment, deletion; raiseExceptions on/off; read-only blocks) from parsed "
+                "attribute and cssText assignment (as item lists and as composed TEXTS with junk declarations, nested brackets, "
+                "comments and at-rules that the model tokenizes and splits with the declaration-block skeleton), deletion; "
+                "raiseExceptions on/off; read-only blocks) from parsed "
                 "blocks with duplicates, comments and unknown at-rules; evaluations = operations applied, after each "
                 "of which every accessor (26 per probe name) is compared; non-trivial = distinct final sequences with "
                 ">= 2 items" % (len(al), 4 if thorough else 3, len(core_ops()[:20]) if thorough else len(core_ops()),
@@ -770,14 +820,16 @@ TRUSTED = [
     "the name digests (Property(raw).literalname / wellformed, checked against the implementation each run)",
     "modelled, not verified: CSSStyleDeclaration is a hand-written Gallina transcription (StyleDecl.v); object "
     "identity/aliasing of Property objects, logging, parentRule/validating are not modelled",
-    "opaque: property values (atoms + verdict of the value parser), priority spellings (none/important/unparsable), "
-    "the text parser behind cssText assignment (C02/C04); the reference oracle uses well-formed values only",
+    "opaque: property values (atoms + verdict of the value parser), priority spellings (none/important/unparsable); for "
+    "cssText assignment the block split is the model of C04 (Skeleton.decl_block over Tokenizer.tokenize), opaque is "
+    "only what Property.cssText / CSSUnknownRule.cssText make of ONE run (digest table keyed by the run text, given by "
+    "construction of the generated texts); the reference oracle uses well-formed values only",
 ]
 ASSUME = [
     "Print Assumptions for every theorem of props/C11.v: see coverage.print_assumptions",
     "theorems quantify over every normalisation function norm; statements that relate a spelling to the name "
-    "the Property constructor gives it assume norm(raw) = norm(literalname) for that spelling (WfName); "
-    "the harness validates it for the 13 canonical spellings and all generated CSS names",
-    "literal-name mode (normalize=False) is modelled and corresponded but is outside the property statement; "
-    "set_literal_replaces_last states what the code does there",
+    "the Property constructor gives it: setProperty needs none (it looks up under the stored name); reading back "
+    "through a spelling r needs norm(r) = norm(stored literal name)",
+    "literal-name mode (normalize=False): fully specified (get_literal_is_effective, remove_literal_exact, "
+    "set_literal_spec, set_then_get_literal) and covered by the reference oracle",
 ]
